@@ -114,3 +114,34 @@ func VerifC04_type3_inner_canon() {
 	vAssert(vBytesEq(r3.paddedOrigin, r.paddedOrigin), "same-origin")
 	vReach("accepted")
 }
+
+// EncapKey: decoding the encoding of any key gives the same key back (every KEM/KDF/AEAD the
+// decoder accepts), and the canonical form of any accepted string is the string itself
+func VerifC04_type3_encap_key() {
+	vUnwind(8)
+	b := vBytesC("b", 0, 40)
+	k, err := UnmarshalEncapKey(b)
+	if err != nil {
+		vReach("rejected")
+		return
+	}
+	enc := k.Marshal()
+	vAssert(len(enc) <= len(b), "canonical-no-longer")
+	vAssert(vBytesEq(enc, b[:len(enc)]), "canonical-encoding-is-the-accepted-prefix")
+	k2, err := UnmarshalEncapKey(enc)
+	vAssert(err == nil, "canonical-decodes")
+	if err == nil {
+		vAssert(k2.id == k.id, "same-id")
+		vAssert(k2.suite.KEM.ID() == k.suite.KEM.ID(), "same-kem")
+		vAssert(k2.suite.KDF.ID() == k.suite.KDF.ID(), "same-kdf")
+		vAssert(k2.suite.AEAD.ID() == k.suite.AEAD.ID(), "same-aead")
+		vAssert(vBytesEq(k2.suite.KEM.SerializePublicKey(k2.publicKey), k.suite.KEM.SerializePublicKey(k.publicKey)), "same-public-key")
+	}
+	// the fields are where the wire format puts them
+	vAssert(b[0] == k.id, "id-byte")
+	vAssert(uint16(b[1])<<8|uint16(b[2]) == uint16(k.suite.KEM.ID()), "kem-id-bytes")
+	n := k.suite.KEM.PublicKeySize()
+	vAssert(uint16(b[3+n])<<8|uint16(b[4+n]) == uint16(k.suite.KDF.ID()), "kdf-id-bytes")
+	vAssert(uint16(b[5+n])<<8|uint16(b[6+n]) == uint16(k.suite.AEAD.ID()), "aead-id-bytes")
+	vReach("accepted")
+}
